@@ -167,9 +167,24 @@ _d1_cache = {}
 
 
 def depth1(seed_name):
+    """(seed, [(label, tags, nb)]) of the one-edit states of a seed.  Pseudo seeds 'S45#cellruns3' / 'S45#outruns2' give the
+    insert-run families (runs of up to n pool cells at the end / pool outputs appended to cell 0)."""
     if seed_name not in _d1_cache:
         S = U.seeds()
-        _d1_cache[seed_name] = (S[seed_name], U.depth1(S[seed_name]))
+        if '#' in seed_name:
+            base, fam = seed_name.split('#')
+            seed = S[base]
+            if fam.startswith('focus:'):
+                states = U.focus2(seed, fam.split(':')[1])
+            elif fam.startswith('cellruns'):
+                states = U.cell_runs(seed, len(seed['cells']), int(fam[-1]))
+            else:
+                states = U.output_runs(seed, 0, int(fam[-1]))
+            for l, t, nb in states[:3] + states[-3:]:
+                assert U.valid(nb), l
+            _d1_cache[seed_name] = (seed, states)
+        else:
+            _d1_cache[seed_name] = (S[seed_name], U.depth1(S[seed_name]))
     return _d1_cache[seed_name]
 
 
@@ -220,7 +235,20 @@ def config_classes():
     return classes
 
 
-def space(tier, parts=('a', 'b', 'nonroot')):
+def runs_plan(tier):
+    focus = [('S45#focus:%s' % f, (KEY_CONFIGS[0], KEY_CONFIGS[4]) if tier == 'quick' else tuple(KEY_CONFIGS)) for f in ('outputs', 'source', 'meta', 'attachments')]
+    if tier == 'quick':
+        return focus + [('S45#cellruns3', (KEY_CONFIGS[0], KEY_CONFIGS[4])), ('S45#outruns2', (KEY_CONFIGS[0], KEY_CONFIGS[4], KEY_CONFIGS[6]))]
+    focus += [('S44#focus:%s' % f, (KEY_CONFIGS[0], KEY_CONFIGS[4])) for f in ('outputs', 'source', 'meta', 'attachments')]
+    return focus + _runs_thorough()
+
+
+def _runs_thorough():
+    return [('S45#cellruns3', tuple(KEY_CONFIGS)), ('S44#cellruns3', (KEY_CONFIGS[0], KEY_CONFIGS[4], KEY_CONFIGS[2])), ('Sempty#cellruns3', (KEY_CONFIGS[0], KEY_CONFIGS[4])),
+            ('S45#outruns3', (KEY_CONFIGS[0], KEY_CONFIGS[4], KEY_CONFIGS[5], KEY_CONFIGS[6], KEY_CONFIGS[7]))]
+
+
+def space(tier, parts=('a', 'b', 'runs', 'nonroot')):
     """Deterministic shard list of the merge family.  A shard is
     (part, seed_name, toolset, tuple(cfgs), base_label or None, [l indices])."""
     shards = []
@@ -275,6 +303,13 @@ def space(tier, parts=('a', 'b', 'nonroot')):
             info['b-inputs:%s' % sname] = '%d x %d input edits x %d configs' % (len(iidx), len(iidx), len(cfgs))
             for i in iidx:
                 shards.append(('b', sname, 'git', cfgs, None, (i,), iidx))
+    if 'runs' in parts:
+        for sname, cfgs in runs_plan(tier):
+            seed, d1 = depth1(sname)
+            idx = tuple(range(len(d1)))
+            info['runs:%s' % sname] = '%d x %d insert runs x %d configs' % (len(d1), len(d1), len(cfgs))
+            for i in idx:
+                shards.append(('b', sname, 'git', cfgs, None, (i,), idx))
     if 'nonroot' in parts and tier == 'thorough':
         seed, d1 = depth1('S45')
         for bl, bt, bnb in d1:
